@@ -554,6 +554,8 @@ def accept(repo):
 from . import frag_jp  # noqa: E402,F401  (registers fragment jp_report: tax_report_jp.py, C20)
 from . import frag_full_report  # noqa: E402,F401  (registers the full_report fragment)
 from . import frag_l6  # noqa: E402,F401  (registers the L6 fragments: inventory, l6_flags, imports)
+from . import frag_split  # noqa: E402,F401  (registers fragment split: ods_parser._create_and_process_transaction as a table)
+from . import frag_tax_engine  # noqa: E402,F401  (registers fragment tax_engine: wiring of tax_engine.py as data)
 
 
 if __name__ == "__main__":
